@@ -1298,6 +1298,14 @@ class FortranWriter(LanguageWriter):
                         # point operations are not actually
                         # associative due to rounding errors.
                         return f"({lhs} {fort_oper} {rhs})"
+                    if precedence(fort_oper) in (precedence("**"),
+                                                 precedence("==")):
+                        # We need brackets for a left operand too as
+                        # c) '**' associates to the right, so that
+                        # 'a ** b ** c' is 'a ** (b ** c)', and d) the
+                        # relational operators do not associate at
+                        # all, 'a < b == c' is not valid Fortran.
+                        return f"({lhs} {fort_oper} {rhs})"
             return f"{lhs} {fort_oper} {rhs}"
         except KeyError as error:
             raise VisitorError(
